@@ -40,6 +40,11 @@ def build(rng, i, hold):
             fk = rng.below(4)
             fin, st = [(respond_str(200, b"done", True), "200"), (respond_str(403, b"no", True), "403"), ("D", "500"),
                        ("W" + hx(b"HTTP/1.1 299 Raw\r\nContent-Length: 0\r\n\r\n"), "299")][fk]
+            upg = (q == n - 1) and not hold and rng.chance(1, 6)
+            if upg:
+                # answered with Request::upgrade without ever asking for the body: 101 and nothing before it
+                reads, rk = [], 0
+                fin, st = "U" + hx(b"x"), "101"
             if hold:
                 holdpos = len(stream) + len(r.render_head())
             stream += r.render()
@@ -49,7 +54,9 @@ def build(rng, i, hold):
                 ws.append("100")
             ws.append(st)
             # what the handler obtains
-            if not reads:
+            if upg:
+                got = body          # (the stream handed out by upgrade() is read to its end by the harness)
+            elif not reads:
                 got = b""
             elif reads[0][1] == 0:
                 got = b""
